@@ -24,6 +24,7 @@ struct Scheduler {
     size_t list_pos = 0;
     std::vector<std::pair<uint64_t, int>> taken; // recorded switches of this run
     uint64_t global_yield = 0, switches = 0, hook_yields = 0, cb_yields = 0;
+    std::function<void(int, int)> on_switch;   // (from task, to task), called on the switching thread
     sem_t done_sem;
     int parking = 0;                            // per-thread flag lives in TLS (see sched_impl)
 
